@@ -100,6 +100,7 @@ PIXEL_KERNELS = {  # Lean name -> (class, method, cell tolerated on a tie of |d|
     "mismatchSgmPx": ("SgmInterpolation", "interpolate_mismatch_sgm", False),
     "occlusionMcCnnPx": ("McCnnInterpolation", "interpolate_occlusion_mc_cnn", False),
     "mismatchMcCnnPx": ("McCnnInterpolation", "interpolate_mismatch_mc_cnn", False),
+    "nodataSgmPx": (None, "interpolate_nodata_sgm", False),  # module-level function of pandora/img_tools.py
 }
 
 
@@ -124,7 +125,11 @@ def check_pixel_kernels(ctx, report, status, ks, rng, n):
         if name not in ks:
             continue
         k = ks[name]
-        real_fn = getattr(getattr(mod, cls), meth)
+        if cls is None:
+            import pandora.img_tools as img_tools
+            real_fn = getattr(img_tools, meth)
+        else:
+            real_fn = getattr(getattr(mod, cls), meth)
         for _ in range(n):
             disp, flag = flagged_map(rng)
             rows, cols = len(flag), len(flag[0])
